@@ -3,6 +3,7 @@
 package main
 
 import (
+	"runtime/debug"
 	"encoding/json"
 	"fmt"
 	"math/rand"
@@ -366,11 +367,12 @@ func c06Record(args []string) error {
 		}
 		for _, ops := range hs {
 			q := fpgo.NewLinkedListQueue[int]()
+			var lpath []llqEvent // a new shard restarts with the history so far
 			for i, o := range ops {
 				d := i + 1
 				kb, _ := json.Marshal(ops[:d])
 				if rc.skip[string(kb)] {
-					rc.emit(nil, llqEvent{D: d, Op: o.Op, Arg: o.Arg, R: Res{K: "hang"}, Peek: Res{K: "hang"}})
+					rc.emit(lpath, llqEvent{D: d, Op: o.Op, Arg: o.Arg, R: Res{K: "hang"}, Peek: Res{K: "hang"}})
 					break
 				}
 				wdSet(func() string { return string(kb) })
@@ -382,9 +384,46 @@ func c06Record(args []string) error {
 					e.Peek = llqApply(q, "Peek", 0)
 					e.Count = llqApply(q, "Count", 0).V
 				}
-				rc.emit(nil, e)
+				rc.emit(lpath, e)
+				lpath = append(lpath, e)
 				if e.R.K == "panic" || e.Peek.K == "panic" {
 					break
+				}
+			}
+			rc.leaves++
+		}
+	case "bulk":
+		// long histories with thousands of pending items (beyond any small pool / cache size inside the queue):
+		// fill - drain rounds through the queue ends, the stack ends and mixed ends
+		n, rounds := flagInt(args, "n", 2500), flagInt(args, "rounds", 3)
+		// no garbage collection while the histories run: nodes handed to a sync.Pool must still be there when the next round asks
+		// for them (a collection in between would hide what reusing them does)
+		defer debug.SetGCPercent(debug.SetGCPercent(-1))
+		shapes := [][2][]string{{{"Offer"}, {"Poll"}}, {{"Push"}, {"Pop"}}, {{"Offer", "Unshift"}, {"Shift", "Pop"}}, {{"Put", "Offer"}, {"Take", "Poll", "Peek"}}}
+		for _, sh := range shapes {
+			q := fpgo.NewLinkedListQueue[int]()
+			var bpath []llqEvent
+			d := 0
+			stop := false
+			for r := 0; r < rounds && !stop; r++ {
+				for phase := 0; phase < 2 && !stop; phase++ {
+					k := n
+					if phase == 1 {
+						k = n + 2 // two more removals than insertions: the empty results are part of the history
+					}
+					for i := 0; i < k; i++ {
+						d++
+						o := llqOp{Op: sh[phase][i%len(sh[phase])], Arg: d}
+						pp, dd := bpath, d
+						wdSet(func() string { return fmt.Sprintf("bulk %v step %d (%d earlier calls)", sh, dd, len(pp)) })
+						e := llqObserve(q, d, o)
+						rc.emit(bpath, e)
+						bpath = append(bpath, e)
+						if e.R.K == "panic" || e.Peek.K == "panic" {
+							stop = true
+							break
+						}
+					}
 				}
 			}
 			rc.leaves++
@@ -407,13 +446,13 @@ func c06Record(args []string) error {
 					o = alpha[rng.Intn(len(alpha))]
 				}
 				if rc.skip[llqKey(path, o, d)] {
-					rc.emit(nil, llqEvent{D: d, Op: o.Op, Arg: o.Arg, R: Res{K: "hang"}, Peek: Res{K: "hang"}})
+					rc.emit(path, llqEvent{D: d, Op: o.Op, Arg: o.Arg, R: Res{K: "hang"}, Peek: Res{K: "hang"}})
 					break
 				}
 				pp := path
 				wdSet(func() string { return llqKey(pp, o, d) })
 				e := llqObserve(q, d, o)
-				rc.emit(nil, e)
+				rc.emit(path, e)
 				path = append(path, e)
 				if e.R.K == "panic" || e.Peek.K == "panic" {
 					break
